@@ -415,8 +415,79 @@ func judge(r *Run, id int, what string, res mutRes, inputLen int, zwKey string, 
 	r.Fail(id, key, fmt.Sprintf("%s on %d bytes of input: %s %s (allocated %d bytes)", what, inputLen, res.Class, res.Msg, res.Alloc), desc)
 }
 
+// c06FixedFamily: short inputs that end, or carry an impossible selector or count, at each place
+// where a reader takes a decision: the selector byte of a nullable string (null first and
+// second), the count and the byte size of array and map blocks, the payload of the wrapper
+// types, the empty timestamp text.  The same inputs on every run, compared with the model.
+func c06FixedFamily(r *Run) {
+	field := func(name string, t *GT) GF { return GF{Name: "F0", Exported: true, JSON: name, T: t} }
+	one := func(t *GT) *GT { return &GT{Kind: "struct", Fields: []GF{field("v", t)}} }
+	rec := func(ft string) string { return `{"type":"record","name":"Fam","fields":[{"name":"v","type":` + ft + `}]}` }
+	type fam struct {
+		schema string
+		g      *GT
+		inputs [][]byte
+	}
+	sel := [][]byte{{}, {0}, {1}, {2}, {3}, {4}, {5}, {6}, {0xff}, {0x80}, {0x80, 0x01}, {2, 2}, {2, 4, 'a'}, {0, 0}, {2, 0xff, 0xff, 0xff, 0xff, 0x0f}}
+	blocks := [][]byte{{}, {1}, {1, 4}, {1, 0x80}, {3}, {3, 2}, {2}, {2, 2}, {2, 2, 'k'}, {2, 2, 'k', 2}, {2, 2, 'k', 2, 1}, {0x7f}, {0xff, 0xff, 0xff, 0xff, 0xff, 0xff, 0xff, 0xff, 0xff, 0x01},
+		{1, 0xff, 0xff, 0xff, 0xff, 0xff, 0xff, 0xff, 0xff, 0xff, 0x01}, {2, 2, 0}, {4, 2, 4}}
+	fams := []fam{
+		{rec(`["null","string"]`), one(mkGT("string")), sel},
+		{rec(`["string","null"]`), one(mkGT("string")), sel},
+		{rec(`["null","string"]`), one(ptrTo(mkGT("string"), 1)), sel},
+		{rec(`["null","string"]`), one(wrapGT("nullstring")), sel},
+		{rec(`["null","long"]`), one(wrapGT("nullint")), sel},
+		{rec(`["long","null"]`), one(ptrTo(mkGT("int32"), 1)), sel},
+		{rec(`{"type":"map","values":"long"}`), one(&GT{Kind: "map", Key: mkGT("string"), Elem: mkGT("int64")}), blocks},
+		{rec(`{"type":"map","values":"string"}`), one(&GT{Kind: "map", Key: mkGT("string"), Elem: mkGT("string")}), blocks},
+		{rec(`{"type":"array","items":"long"}`), one(&GT{Kind: "slice", Elem: mkGT("int64")}), blocks},
+		{rec(`{"type":"array","items":"string"}`), one(&GT{Kind: "slice", Elem: mkGT("string")}), blocks},
+		{rec(`"float"`), one(wrapGT("nullfloat")), [][]byte{{}, {0}, {0, 0}, {0, 0, 0}, {0, 0, 0xc0, 0x3f}}},
+		{rec(`"double"`), one(wrapGT("nullfloat")), [][]byte{{}, {0, 0, 0, 0}, {0, 0, 0, 0, 0, 0, 0xf8}, {0, 0, 0, 0, 0, 0, 0xf8, 0x3f}}},
+		{rec(`"boolean"`), one(wrapGT("nullbool")), [][]byte{{}, {0}, {1}, {2}}},
+		{rec(`"string"`), one(wrapGT("time")), [][]byte{{}, {0}, {2}, {2, 'x'}, {40}, {0x28, '2', '0', '0', '6'}}},
+		{rec(`"string"`), one(wrapGT("nulltime")), [][]byte{{}, {0}, {2, 'x'}, {40}}},
+		{rec(`"long"`), one(wrapGT("time")), [][]byte{{}, {0}, {0x80}, {0xff, 0xff, 0xff, 0xff, 0xff, 0xff, 0xff, 0xff, 0xff, 0x01}}},
+		{rec(`{"type":"int","logicalType":"date"}`), one(wrapGT("time")), [][]byte{{}, {0}, {0x80}, {0xff, 0xff, 0xff, 0xff, 0x1f}}},
+	}
+	for _, f := range fams {
+		s, err := avro.SchemaFromString(f.schema)
+		if err != nil {
+			panic(err)
+		}
+		if _, err := schemaCodec(s, f.g); err != nil {
+			r.Fail(-1, "compat-build", "Schema.Codec refuses a compatible target of the fixed family: "+err.Error(), map[string]any{"schema": f.schema, "target": f.g.Coq()})
+			continue
+		}
+		for _, mode := range []string{"read", "skip"} {
+			tg := f.g
+			if mode == "skip" {
+				tg = emptyTarget()
+			}
+			res := runBatch(mutReq{Schema: f.schema, Type: tg, Inputs: f.inputs, Mode: mode})
+			for k, m := range f.inputs {
+				desc := map[string]any{"schema": f.schema, "target": tg.Coq(), "input": hexs(m), "mode": mode, "family": "fixed"}
+				rr := res[k]
+				id := -1
+				if rr.Class == "ok" || rr.Class == "err" || rr.Class == "panic" {
+					if mode == "read" {
+						q := readRes{Class: rr.Class, Rem: rr.Rem, Coq: rr.Coq}
+						id = r.Add(cApp("KRead", coqSchema(s), tg.Coq(), cBytes(m), q.coq()), desc, fmt.Sprintf("famread/%x/%s/%s", m, f.schema, tg.Coq()))
+					} else {
+						q := ires{Class: rr.Class, Rem: rr.Rem}
+						id = r.Add(cApp("KSkip", coqSchema(s), tg.Coq(), cBytes(m), q.coq()), desc, fmt.Sprintf("famskip/%x/%s", m, f.schema))
+					}
+				}
+				r.Count("family/" + mode + "/" + rr.Class)
+				judge(r, id, "Codec."+strings.Title(mode), rr, len(m), "", desc)
+			}
+		}
+	}
+}
+
 func runC06(r *Run) {
 	zeroWidthProbes(r)
+	c06FixedFamily(r)
 	// (a) record bodies: decode and skip paths of built codecs
 	nbase := r.N(40, 300)
 	per := r.N(70, 200)
